@@ -162,14 +162,15 @@ def classify(c, cc, model, fint, kT, cu, KT, k0uu, sc_free, n):
     d2 = (D2 - 2 * D1) / 2.
     pred3 = 3 * d1 + 9 * d2
     n3 = np.linalg.norm(D3)
-    ok = np.linalg.norm(D3 - pred3) <= 1e-6 * (n3 + np.linalg.norm(D1)) + 1e-300
+    noise = 1e-11 * np.linalg.norm(KT)      # round-off floor of the stencil Jacobians
+    ok = np.linalg.norm(D3 - pred3) <= 1e-6 * (n3 + np.linalg.norm(D1)) + 20 * noise
     J1 = KT - D1
     c.info['tangent_discrepancy'] = {'first_order_part_rel_to_state_part_of_J': float(np.linalg.norm(d1) / (np.linalg.norm(J1 - k0uu) + 1e-300)),
                                      'second_order_part_rel': float(np.linalg.norm(d2) / (np.linalg.norm(J1 - k0uu) + 1e-300)),
                                      'polynomial_degree_le_2_confirmed_at_t3': bool(ok),
                                      'fint_jacobian_asymmetry': float(np.linalg.norm(J1 - J1.T) / (np.linalg.norm(J1) + 1e-300))}
     info = c.info['tangent_discrepancy']
-    if ok and model.startswith('clpt_sanders') and not (info['second_order_part_rel'] <= 1e-8 and info['fint_jacobian_asymmetry'] <= 1e-12):
+    if ok and model.startswith('clpt_sanders') and not (np.linalg.norm(d2) <= 1e-8 * np.linalg.norm(J1 - k0uu) + 20 * noise and info['fint_jacobian_asymmetry'] <= 1e-11):
         return None      # the two Sanders findings are pure first-order defects with a symmetric fint Jacobian
     if ok:
         return 'shell-tangent-inconsistent-with-fint-' + model
